@@ -41,6 +41,12 @@ var solvers = []solverCfg{
 	}},
 }
 
+// cvc5 --incremental takes a different preprocessing path: on large ground instantiation queries it
+// answered in under a second where the default configuration (and both z3) needed 10-60 s.
+var cvc5Inc = solverCfg{"cvc5/inc", func(f string, ms, seed int) []string {
+	return []string{"cvc5", "--lang=smt2", "--incremental", fmt.Sprintf("--tlimit=%d", ms), fmt.Sprintf("--seed=%d", seed), f}
+}}
+
 // smtText renders the SMT-LIB query of an obligation. With light set, quantified hypotheses
 // are left out (fewer assumptions: an `unsat` answer is still a proof; any other answer is
 // discarded).
@@ -151,7 +157,7 @@ func solveOne(c *Ctx, o *Obligation, dir string, timeoutMs int, seed int) *Verdi
 				if ms > 45000 {
 					ms = 45000
 				}
-				if name, out, ok := raceUnsat(ifile, []solverCfg{solvers[0], z3NewArith6, solvers[1], solvers[2]}, ms, seed, &v.Attempts, "inst"); ok {
+				if name, out, ok := raceUnsat(ifile, []solverCfg{solvers[0], z3NewArith6, solvers[1], cvc5Inc, solvers[2]}, ms, seed, &v.Attempts, "inst"); ok {
 					v.Status, v.Solver, v.Output = "unsat", name+"(inst)", out
 					v.Millis = time.Since(start).Milliseconds()
 					return v
